@@ -617,13 +617,23 @@ def prV5Connect (c : C) (parsed : Except Nat Pkt) : C :=
     | .error e => (psV5Connack c (mkV5Connack (v5ConnectErrRc e))).err e
 
 /-- fix (finding #4): a CONNACK on an established connection is a protocol error -/
+def isSendEv : Ev → Bool
+  | .send _ _ => true
+  | _ => false
+
+/-- fix 999e935: the retransmission of stored packets on a received CONNACK is a send: when at
+    least one packet was requested again, the client's PINGREQ timer restarts -/
+def resendStored (c : C) : C :=
+  let c' := sendStored c
+  if (c'.ev.drop c.ev.length).any isSendEv then sendPostProcess c' else c'
+
 def prV3Connack (c : C) (parsed : Except Nat Pkt) : C :=
   if c.s.status = .connected then handleV3Error c eProtocol
   else match parsed with
     | .ok p =>
       let c := if p.rc = some 0 then
           let c := { c with s := { c.s with status := .connected } }
-          if p.sp then sendStored c else clearStoreRelated c
+          if p.sp then resendStored c else clearStoreRelated c
         else c
       c.push (.recv p)
     | .error e => handleV3Error c e
@@ -656,7 +666,7 @@ def prV5Connack (c : C) (parsed : Except Nat Pkt) : C :=
       let c := if p.rc = some 0 then
           let c := { c with s := { c.s with status := .connected } }
           let c := propsFold connackRecvProp c p.props
-          if p.sp then sendStored c else clearStoreRelated c
+          if p.sp then resendStored c else clearStoreRelated c
         else c
       c.push (.recv p)
     | .error e => if c.s.status = .connected then handleV5Error c e else c.err e
